@@ -190,7 +190,12 @@ json_object *c09_twin_h(json_object *o)
 	case json_type_double:
 	{
 		double d = json_object_get_double(o);
-		json_object *n = vh_below(2) ? json_object_new_double(7.25) : json_object_new_double_s(7.25, "7.250");
+		json_object *n;
+		if (d == 0 && vh_below(2))
+			/* the zero of the other sign, with retained text, then set: same magnitude, another value */
+			n = signbit(d) ? json_object_new_double_s(0.0, "0.0") : json_object_new_double_s(-0.0, "-0.0");
+		else
+			n = vh_below(2) ? json_object_new_double(7.25) : json_object_new_double_s(7.25, "7.250");
 		json_object_set_double(n, d);
 		return n;
 	}
@@ -509,8 +514,12 @@ static int drive(int start, int nexec)
 		vh_srand(s0 * 1000003ull + (uint64_t)x);
 		ev_begin("new");
 		ev_end();
+		/* the two sides of a comparison may have been created under different global string hashes (each table keeps
+		 * the hash function it was created with) */
+		json_global_set_string_hash(vh_below(4) == 0 ? JSON_C_STR_HASH_PERLLIKE : JSON_C_STR_HASH_DFLT);
 		json_object *a = gen(3), *b = gen(3);
 		ev_eq(a, b);
+		json_global_set_string_hash(vh_below(4) == 0 ? JSON_C_STR_HASH_PERLLIKE : JSON_C_STR_HASH_DFLT);
 		json_object *t = twin(a);
 		ev_eq(a, t);
 		json_object *t2 = twin(t);
